@@ -9,7 +9,9 @@
 (*              on offer (F is affine in s_d: the global minimum of the    *)
 (*              one-parameter restriction, over all angles)                *)
 (*   Descent    the objective never increases along a sweep                *)
-(*   Exact      all sines stay in {-1, 0, 1} (amplitudes never vanish)     *)
+(*   Exact      all sines stay in {-1, -1/2, 0, 1/2, 1} and agree with the *)
+(*              lattice angles (for every rational frequency fn/fd)        *)
+(* Values of F are emitted times 4 (Roto!F), angles in units pi/(12 fn[d]).*)
 (* Completed calls are emitted for REPLAY:                                 *)
 (*   <<call, x after, generators after, F before, <<minima per sub-step>>, *)
 (*     some generator choice was a tie>>                                   *)
@@ -35,7 +37,7 @@ Sub == /\ d >= 1
           THEN /\ Finish(x, gen, cur) /\ last' = 0 /\ UNCHANGED <<pr, x, S, gen, cur>>
           ELSE LET g == PickGen(pr, S, gen, d)
                    a == Amp(pr, S, g, d)
-                   nS == [S EXCEPT ![d] = -Sgn(a)]
+                   nS == [S EXCEPT ![d] = -2 * Sgn(a)]
                    ng == [gen EXCEPT ![d] = g]
                    nx == [x EXCEPT ![d] = Representative(pr, g, d, a, x[d])]
                    nc == [cur EXCEPT !.ys = Append(cur.ys, F(pr, nS, ng)), !.tie = cur.tie \/ Tie(pr, S, gen, d)]
@@ -45,9 +47,9 @@ Next == Begin \/ Sub
 
 Emit == IF d = 0 /\ Len(hist) = MaxSteps THEN PrintT(ToJson([p |-> pr.id, h |-> hist])) ELSE TRUE
 
-Exact == \A e \in 1..pr.P : S[e] \in {-1, 0, 1} /\ SinL(Arg(pr, x[e], gen[e], e)) = S[e]
+Exact == \A e \in 1..pr.P : S[e] \in -2..2 /\ Sin2(Arg(pr, x[e], gen[e], e), pr.fd[e]) = S[e]
 SubMin == last # 0 =>
-  \A g \in Gens(pr) : \A s \in {-1, 1} : F(pr, [S EXCEPT ![last] = s], [gen EXCEPT ![last] = g]) >= F(pr, S, gen)
+  \A g \in Gens(pr) : \A s \in {-2, 2} : F(pr, [S EXCEPT ![last] = s], [gen EXCEPT ![last] = g]) >= F(pr, S, gen)
 Descent == F(pr, S, gen) <= prevF
 Posed == WellPosed(pr)
 =============================================================================
